@@ -342,6 +342,9 @@ func (vc *VC) lenOf(v Term, t types.Type, isCap bool, pos token.Pos) Term {
 // evalKnown: library functions with exact models.
 func (vc *VC) evalKnown(key string, callee *types.Func, recv Value, call *ast.CallExpr, st *State) ([]Value, bool) {
 	pos := call.Pos()
+	if vals, ok := vc.evalHasher(key, call, st); ok {
+		return vals, true
+	}
 	switch key {
 	case "fmt.Errorf":
 		return []Value{vc.newError(call, st, true)}, true
